@@ -28,15 +28,19 @@ META = dict(
     functions=["fdtd.wrapper.run_fdtd", "fdtd.fdtd.checkpointed_fdtd", "fdtd.fdtd.reversible_fdtd (segmented_forward)", "fdtd.fdtd._reversible_slice_boundaries",
                "ArrayContainer.reset", "fdtd.forward.forward", "update_detector_states", "collect_interfaces"],
     assumptions=["reals for floats", "inverse permittivity symbolic per cell (> 0); sources concrete", "progress bars off (show_progress=False)",
-                 "round(i*T/k) modelled as round-half-even of the exact rational (the float quotient of two ints < 2^24 rounds the same way)"],
+                 "partition claim, layer 1 (unbounded T): round(i*T/k) modelled as round-half-even of the exact rational", "partition claim, layer 2 (float64-accurate, z3 floating-point theory): T <= 4095 (quick) / 16383 (thorough), k in the listed set"],
     outside="T beyond the bound for the run comparison (the partition claim has no upper bound on T, k <= 48)",
-    bounds=dict(quick=dict(T=4, k_max=24), thorough=dict(T=7, k_max=48)),
+    bounds=dict(quick=dict(T=4, k_max=24, fp_k=[2, 3, 5, 7], fp_T_max=4095), thorough=dict(T=7, k_max=48, fp_k=[2, 3, 4, 5, 6, 7, 9, 11, 13], fp_T_max=16383)),
+    timeout_ms=dict(quick=120000, thorough=600000),
 )
 
 
 def cases(tier, seed):
     T = 4 if tier == "quick" else 7
     out = [dict(name=f"partition-k{lo}-{hi}", kind="partition", klo=lo, khi=hi) for lo, hi in ([(1, 12), (13, 24)] if tier == "quick" else [(1, 12), (13, 24), (25, 36), (37, 48)])]
+    # float64-accurate layer (QF_BVFP): one case per k so that the ~10 s floating-point queries run in parallel
+    for k in ([2, 3, 5, 7] if tier == "quick" else [2, 3, 4, 5, 6, 7, 9, 11, 13]):
+        out.append(dict(name=f"partition-fp-k{k}", kind="partition_fp", k=k, Tmax=(1 << 12) - 1 if tier == "quick" else (1 << 14) - 1, full=tier != "quick"))
     scenes = [("pml", (3, 3, 6), True), ("periodic", (3, 2, 4), False)]
     for nm, shape, pml in scenes:
         cfgs = [("ckpt", n) for n in range(1, T + 1)] + [("rev", r) for r in range(0, T)]
@@ -56,7 +60,8 @@ def _partition(c, case):
         c.symvars += 1
 
         def fn(T=T, k=k):
-            return F._reversible_slice_boundaries(T, k)
+            with pysym.stub_module(F, int=pysym.symint, float=pysym.symfloat, round=pysym.symround):
+                return F._reversible_slice_boundaries(T, k)
 
         def post(res, exc, T=T, k=k):
             if exc is not None or len(res) != k + 1:
@@ -78,6 +83,39 @@ def _partition(c, case):
     c.witness("twin", T.t > 5, cons)
 
 
+def _partition_fp(c, case):
+    """the same real function executed over float64-accurate symbolic scalars (vf.fpsym): T a bit-vector int in
+    [k, Tmax], every /, * and round()/int() with CPython's float64 semantics in z3's floating-point theory."""
+    from fdtdx.fdtd import fdtd as F
+
+    from .. import fpsym
+
+    c.functions.add("fdtd.fdtd._reversible_slice_boundaries (float64 semantics, QF_BVFP)")
+    k, Tmax = case["k"], case["Tmax"]
+    c.bounds.update(k=k, T_max=Tmax)
+    T, cons = fpsym.fresh_int("T", k, Tmax)
+    c.symvars += 1
+    with pysym.stub_module(F, int=fpsym.fp_int, float=fpsym.fp_float):
+        res = F._reversible_slice_boundaries(T, k)
+    if len(res) != k + 1:
+        c.fail_concrete("wrong number of boundaries", dict(k=k, got=len(res)), key="slice-partition-fp")
+        return
+    s = [fpsym.bvterm(x) for x in res]
+
+    def replay(m):
+        tv = m.eval(T.t, model_completion=True).as_signed_long()
+        got = F._reversible_slice_boundaries(tv, k)
+        bad = got[0] != 0 or got[-1] != tv or any(b - a < 1 for a, b in zip(got, got[1:])) or len(got) != k + 1
+        return bad, dict(T=tv, k=k, boundaries=got)
+
+    c.prove("s_0 == 0", s[0] == 0, cons, replay, key="slice-partition-fp:start")
+    c.prove(f"s_{k} == T", s[k] == T.t, cons, replay, key="slice-partition-fp:end")
+    idx = range(k) if case["full"] else sorted({0, k - 1})
+    for i in idx:
+        c.prove(f"s_{i + 1} - s_{i} >= 1", s[i + 1] - s[i] >= 1, cons, replay, key="slice-partition-fp:increasing")
+    c.witness("twin: the range of T is inhabited and a boundary lies strictly inside", z3.And(s[1] > 0, s[1] < T.t) if k > 1 else z3.BoolVal(True), cons)
+
+
 def _gc(method, n):
     if method == "ckpt":
         return GradientConfig(method="checkpointed", num_checkpoints=n)
@@ -87,6 +125,8 @@ def _gc(method, n):
 def run_case(c, case):
     if case["kind"] == "partition":
         return _partition(c, case)
+    if case["kind"] == "partition_fp":
+        return _partition_fp(c, case)
     shape, T = tuple(case["shape"]), case["T"]
     c.functions.update(META["functions"])
     c.bounds.update(T=T, shape=list(shape))
